@@ -18,7 +18,7 @@ P = {
          ['nesting correctness of the owner search as a whole (see finding F14 in DESIGN.md), area equality'], '5 C04'),
  'C05': ("Proof of IsContributingOpen == the statement's inside/outside rule per clip type and fill rule; the builders hand open OutRecs to the open solution with isOpen=true in both variants; bounded SetWindCountForOpenPathEdge and AddPaths_ open end flags.",
          ['where pieces are cut, lengths, tolerance; closed result unchanged by open subjects'], '5 C05'),
- 'C06': ('Proof of the sign/orientation plumbing of polygon offsetting (Group reversal flag, group_delta_ sign, |delta|<0.5 and delta==0 shortcuts, clean-up union fill rule / ReverseSolution) and of the join selection of OffsetPoint the vertex traversal of OffsetPolygon (call-trace contracts) and BuildNormals (one normal per vertex, cyclic successor); DoBevel/DoMiter/DoRound place their vertices along the adjacent edge normals by the signed group delta (floating-point operations uninterpreted); arc step set up per group before round joins or round ends are drawn.',
+ 'C06': ('Proof of the sign/orientation plumbing of polygon offsetting (Group reversal flag, group_delta_ sign, |delta|<0.5 and delta==0 shortcuts, clean-up union fill rule / ReverseSolution) and of the join selection of OffsetPoint the vertex traversal of OffsetPolygon (call-trace contracts) and BuildNormals (one normal per vertex, cyclic successor); DoBevel/DoMiter/DoRound/DoSquare place their vertices along the adjacent edge normals / the bisector by the signed (resp. absolute) group delta (floating-point operations uninterpreted); arc step set up per group before round joins or round ends are drawn.',
          ['the offset region itself (trigonometry, floating point), DoSquare/DoMiter/DoRound geometry'], '5 C06'),
  'C07': ('Proof that per-path state of DoGroupOffset (end type, delta) is re-derived from the group for every path, and of OffsetOpenPath (caps by end type at both ends, forward pass, normal reversal, backward pass); arc step set up for round ends.',
          ['stroke geometry, +-delta symmetry, OffsetOpenJoined'], '5 C07'),
@@ -26,13 +26,13 @@ P = {
          ['what the location state machine outputs beyond safety, TidyEdges, intersection points, winding equality'], '5 C08'),
  'C09': ('Proof of the shared rectangle kernel incl. GetNextLocation (loop contracts), RectClipLines64::Execute shortcuts and per-polyline scratch reset, ExecuteInternal call trace (walk starts at segment 1); bounded GetPath (ring order, two-point pieces kept).',
          ['piece positions and lengths (intersection points)'], '5 C09'),
- 'C10': ('Proof of index/iterator safety and UB-freedom (bounds, pointers, signed overflow, conversions, division by zero, float overflow/NaN where stated) of every function under contract, with the coordinate ranges of the property as preconditions; call-site preconditions of the offsetting helpers; GetDx/TopX integer arithmetic; CheckSplitOwner progress contract (termination); MoveSplits keeps every split list owned (no leak); bounded PointInPolygon on polygons lying in the query line.',
+ 'C10': ('Proof of index/iterator safety and UB-freedom (bounds, pointers, signed overflow, conversions, division by zero, float overflow/NaN where stated) of every function under contract, with the coordinate ranges of the property as preconditions; call-site preconditions of the offsetting helpers; GetDx/TopX integer arithmetic; CheckSplitOwner progress contract (termination); MoveSplits keeps every split list owned (no leak); bounded PointInPolygon on polygons lying in the query line; bounded ProcessHorzJoins (rings stay consistent and singly owned; the absorbed OutRec drops its ring before an allocation can fail).',
          ['termination and memory safety of whole operations; leaks; the allocation-failure clause (no exceptions in the verified C dialect)'], '5 C10'),
  'C11': ('Proof of CheckPrecisionRange (both exception configurations), ScalePath/ScalePaths error reporting, PathsD entry points check precision first and return empty on error (call-trace), export-layer argument validation; AddLocalMaxPoly clears succeeded_ only on a front/back mismatch without an open end.',
          ['"Execute returns true for every input" (needs a global sweep invariant)'], '5 C11'),
  'C12': ('Proof that CleanUp/Clear reset every scratch member, that RectClip64::Execute starts every path with empty scratch state, the DoGroupOffset per-path invariant, and AddReuseableData (copies every local minimum, container untouched).',
          ['bit-identical reruns, arbitrary call sequences, reusable-container sharing'], '5 C12'),
- 'C13': ('Proof that LocMinSorter is the strict weak order (y desc, x asc) and IntersectListSort its counterpart; IsValidAelOrder orders two edges that are apart at the scanline by x alone; TopX/GetDx free of integer overflow; bounded check that AddPaths_ flags exactly the cyclic local extrema independent of start vertex, duplicates and closing vertex.',
+ 'C13': ('Proof that LocMinSorter is the strict weak order (y desc, x asc) and IntersectListSort its counterpart; IsValidAelOrder orders two edges that are apart at the scanline by x alone; TopX/GetDx free of integer overflow; GetSegmentIntersectPt invariant under translation (determinant and parameter from differences only); bounded check that AddPaths_ flags exactly the cyclic local extrema independent of start vertex, duplicates and closing vertex.',
          ['order-independence of the sweep, all algebraic identities and transformations'], '5 C13'),
  'C14': ("Every assigns clause of every function under contract names only parameters and object members (CBMC checks every write against it, so a static scratch variable fails an assigns obligation); supporting static scan (nm on the freshly built objects plus a translation unit instantiating the header-only API and the C export layer, with and without USINGZ): every symbol in a writable section is std::__ioinit, declared const in the sources, or a string-literal pointer that is never written (known finding F12: the USINGZ export layer's callback globals).",
          ['interleavings (CBMC has no threads); nothing here explores schedules'], '5 C14'),
@@ -42,7 +42,7 @@ P = {
          ['rounding of x*scale itself (floating-point product), precision loss on descale, equality of complete results'], '5 C16'),
  'C17': ('Proof (call-trace contracts) that every exported function forwards every parameter to the slot of the same meaning; argument validation; marshaling length arithmetic and in-bounds access; CRectToRect / ConvertCPathToPathT; bounded ConvertCPathsDToPaths64 order and rounding.',
          ['equality of complete results with the C++ call beyond forwarding and marshaling'], '5 C17'),
- 'C18': ('Proof for all 64-bit inputs whose differences do not overflow: TriSign, ProductsAreEqual, CrossProductSign, IsCollinear on both the __int128 and the portable branch (products as exact ghost products), Multiply carry chain; bounded PointInPolygon vs exact even-odd oracle; GetSegmentIntersectPt: parallel reported, result on the first segment (t clamped), no integer overflow.',
+ 'C18': ('Proof for all 64-bit inputs whose differences do not overflow: TriSign, ProductsAreEqual, CrossProductSign, IsCollinear on both the __int128 and the portable branch (products as exact ghost products), Multiply carry chain; bounded PointInPolygon vs exact even-odd oracle; GetSegmentIntersectPt: parallel reported, result on the first segment (t clamped), no integer overflow, determinant and parameter invariant under translation; bounded Area exactness for small polygons anywhere in range.',
          ['accuracy of GetSegmentIntersectPt, GetClosestPointOnSegment, Area (floating-point multiply/divide is beyond every installed back end); the 64x64 multiplier itself (assumption A1/A2)'], '5 C18'),
  'C19': ('Minkowski quad construction (indices, closing edge iff closed, count) and forwarding to Union(NonZero); empty input => empty result.',
          ['that the union of the quads is right (= C01)'], '5 C19'),
